@@ -101,7 +101,9 @@ fn compositions(m: u32) -> Vec<Vec<u32>> {
 fn exact_case<S: Shape>(spec: &AnimSpec, r: &mut Rng, acc: &mut Acc, index: u64, mmax: u32) {
     let n_seg = 2 + r.usize(3);
     let u = *r.pick(&[1.0f32 / 512.0, 1.0 / 64.0, 1.0 / 8.0, 1.0 / 8.0, 1.0]);
-    let base: Vec<(usize, u32)> = (0..n_seg).map(|_| (r.usize(5), 2 + r.below(mmax as u64 - 1) as u32)).collect();
+    // m = 0: the state is left again in the same frame (no advance at all between two state changes); the
+    // variants then insert zero-length advances into that empty interval
+    let base: Vec<(usize, u32)> = (0..n_seg).map(|k| (r.usize(5), if k + 1 < n_seg && r.chance(1, 4) { 0 } else { 2 + r.below(mmax as u64 - 1) as u32 })).collect();
     // long-lived states: one third of the histories first spend a huge (dyadic, exactly representable)
     // time in each state, so that the accumulated time has few spare low-order bits in f32; the total
     // big + m*u stays exactly representable in f32 (u is raised to the f32 resolution at `big`).
@@ -109,7 +111,7 @@ fn exact_case<S: Shape>(spec: &AnimSpec, r: &mut Rng, acc: &mut Acc, index: u64,
     let u = if big > 0.0 { u.max(big / 4_194_304.0).max(1.0 / 128.0) } else { u };
     let reference_segs: Vec<(usize, Vec<f32>)> = base
         .iter()
-        .map(|(s, m)| (*s, if big > 0.0 { vec![big, *m as f32 * u] } else { vec![*m as f32 * u] }))
+        .map(|(s, m)| (*s, if *m == 0 { vec![] } else if big > 0.0 { vec![big, *m as f32 * u] } else { vec![*m as f32 * u] }))
         .collect();
     let case = |segs: &[(usize, Vec<f32>)], what: &str| {
         case_json(STREAM_EXACT, index, vec![
@@ -127,6 +129,33 @@ fn exact_case<S: Shape>(spec: &AnimSpec, r: &mut Rng, acc: &mut Acc, index: u64,
         }
     };
     for (si, (_, m)) in base.iter().enumerate() {
+        if *m == 0 {
+            for nz in [1usize, 2] {
+                let mut segs = reference_segs.clone();
+                segs[si].1 = vec![0.0; nz];
+                acc.eval();
+                match run_schedule::<S>(spec, &segs, acc, true) {
+                    Err(e) => {
+                        acc.violation("c06:advance0", e, case(&segs, "advance(0) changes nothing"));
+                        return;
+                    }
+                    Ok(obs) => {
+                        for (k, (o, rf)) in obs.iter().zip(reference.iter()).enumerate() {
+                            if !same_all(&o.0, &rf.0) || o.1 != rf.1 || o.2 != rf.2 {
+                                acc.violation(
+                                    "c06:zero-advance-between-state-changes",
+                                    format!("{nz} zero-length advance(s) inserted between two state changes of the same frame (segment #{si}): at observation point {k} values {:?} (ended {}) but without them {:?} (ended {})", o.0.vals(), o.2, rf.0.vals(), rf.2),
+                                    case(&segs, "inserting zero-length advances anywhere changes nothing"),
+                                );
+                                return;
+                            }
+                        }
+                    }
+                }
+            }
+            acc.sig(format!("same-frame-transition|{}|next={}", if spec.animated(base[si].0) { "animated" } else { "idle" }, if spec.animated(base[si + 1].0) { "animated" } else { "idle" }));
+            continue;
+        }
         let comps = compositions(*m);
         for (ci, parts) in comps.iter().enumerate() {
             for zeros in [false, true] {
